@@ -395,3 +395,5 @@ def run(ctx):
     tstate.recv_reset_rows(r11, ctx.facts)
     from . import C16
     C16.r7_discard_frees(ctx, 'C19.R12')  # the window behind discarded DATA returns to the connection: flow-control bookkeeping goes back to its idle value (= C16.R7)
+    from .. import boundaries as _b
+    _b.check_counts(ctx, 'C19.RQ', 'C19')
